@@ -30,11 +30,13 @@ class Contract:
         self.requires = []
         self.assigns = []
         self.ensures = []
+        self.frees = []
         self.loops = {}       # n -> dict(invariant=[], assigns=[], decreases=None)
         self.ghost_entry = []
         self.ghost_loop = {}  # (n, 'begin'|'end') -> [stmts]
         self.has_assigns = False
         self.lets = []        # textual abbreviations: let NAME = text
+        self.target = name
 
     def loop(self, n):
         return self.loops.setdefault(n, {'invariant': [], 'assigns': [], 'decreases': None, 'has_assigns': False})
@@ -83,9 +85,10 @@ def parse_file(path):
             continue
         line = raw.strip()
         where = '%s:%d' % (path, ln)
-        m = re.match(r'^function\s+(\S+)$', line)
+        m = re.match(r'^function\s+(\S+)(?:\s+for\s+(\S+))?$', line)
         if m:
             cur = Contract(m.group(1), path)
+            cur.target = m.group(2) or m.group(1)   # a named contract variant for another function
             if cur.name in out:
                 raise ContractError('%s: duplicate contract for %s' % (where, cur.name))
             out[cur.name] = cur
@@ -100,7 +103,7 @@ def parse_file(path):
             raise ContractError('%s: clause before "function"' % where)
         for nm, txt in file_lets + cur.lets:
             line = re.sub(r'\b%s\b' % nm, '(' + txt + ')', line)
-        m = re.match(r'^(requires|ensures|assigns)\b\s*(.*)$', line)
+        m = re.match(r'^(requires|ensures|assigns|frees)\b\s*(.*)$', line)
         if m:
             kw, rest = m.groups()
             lst = getattr(cur, kw)
@@ -180,7 +183,14 @@ def fn_clauses(c, extra_ensures=()):
         gh = list(c.ghost_entry)
         for v in c.ghost_loop.values():
             gh += v
-        out.append('__CPROVER_assigns(%s)' % ', '.join(list(c.assigns) + [g for g in ghost_targets(gh) if g not in c.assigns]))
+        gt = [g for g in ghost_targets(gh) if g not in c.assigns]
+        lines = list(c.assigns) + ([', '.join(gt)] if gt else [])
+        if not lines:
+            out.append('__CPROVER_assigns()')
+        for a in lines:
+            out.append('__CPROVER_assigns(%s)' % a)
+    for fr in c.frees:
+        out.append('__CPROVER_frees(%s)' % fr)
     for e in list(c.ensures) + list(extra_ensures):
         out.append('__CPROVER_ensures(%s)' % e)
     return '\n'.join(out)
@@ -189,7 +199,12 @@ def fn_clauses(c, extra_ensures=()):
 def loop_clauses(L, ghost=()):
     out = []
     if L['has_assigns']:
-        out.append('__CPROVER_assigns(%s)' % ', '.join(list(L['assigns']) + [g for g in ghost_targets(ghost) if g not in L['assigns']]))
+        gt = [g for g in ghost_targets(ghost) if g not in L['assigns']]
+        lines = list(L['assigns']) + ([', '.join(gt)] if gt else [])
+        if not lines:
+            out.append('__CPROVER_assigns()')
+        for a in lines:
+            out.append('__CPROVER_assigns(%s)' % a)
     for i in L['invariant']:
         out.append('__CPROVER_loop_invariant(%s)' % i)
     if L['decreases']:
@@ -295,7 +310,8 @@ def desugar_implies(e):
     return ','.join(res)
 
 
-def native_macros(c, params):
+def native_macros(c, params, fname=None):
+    cname = fname or c.name
     """C macros evaluating the contract natively: VF_PRE_<f>, VF_SNAP_<f>, VF_POST_<f>(RET).
     __CPROVER_old(e) -> snapshot variable captured by VF_SNAP; __CPROVER_return_value -> RET."""
     olds = []
@@ -321,7 +337,7 @@ def native_macros(c, params):
             inner = expr[j + len(key):k - 1]
             if inner not in olds:
                 olds.append(inner)
-            res += '(VF_OLD_%s_%d)' % (c.name, olds.index(inner))
+            res += '(VF_OLD_%s_%d)' % (cname, olds.index(inner))
             i = k
         return res
     posts = [desugar_implies(find_olds(e)) for e in c.ensures]
@@ -329,11 +345,11 @@ def native_macros(c, params):
     pre = ' && '.join('(%s)' % desugar_implies(r) for r in c.requires) or '1'
     pre = re.sub(r'__CPROVER_(r|w)_ok\(', r'VF_\1_OK_N(', pre).replace('VF_r_OK_N', 'VF_R_OK').replace('VF_w_OK_N', 'VF_W_OK')
     lines = []
-    lines.append('#define VF_PRE_%s (%s)' % (c.name, pre))
-    snap = ' '.join('__typeof__(%s) VF_OLD_%s_%d = (%s);' % (o, c.name, i, o) for i, o in enumerate(olds))
+    lines.append('#define VF_PRE_%s (%s)' % (cname, pre))
+    snap = ' '.join('__typeof__(%s) VF_OLD_%s_%d = (%s);' % (o, cname, i, o) for i, o in enumerate(olds))
     snap += ' ' + ' '.join(c.ghost_entry)
-    lines.append('#define VF_SNAP_%s %s' % (c.name, snap))
+    lines.append('#define VF_SNAP_%s %s' % (cname, snap))
     post_items = ' '.join('VF_ASSERT(%s, "%s.postcondition.%d");' % (p, c.name, i + 1) for i, p in enumerate(posts))
     post_items = re.sub(r'__CPROVER_(r|w)_ok\(', lambda m: 'VF_%s_OK(' % m.group(1).upper(), post_items)
-    lines.append('#define VF_POST_%s(RET) do { %s } while (0)' % (c.name, post_items))
+    lines.append('#define VF_POST_%s(RET) do { %s } while (0)' % (cname, post_items))
     return '\n'.join(lines)
